@@ -89,6 +89,7 @@ func checkC09(c *Ctx) {
 	c.Rule("R5", "connection limit: test and insertion in one critical section; admitted iff limit==0 or len<limit")
 	c.Rule("R6", "stop is wide: closes listener and every registered connection (snapshot + stopped mark in one critical section), then joins")
 	c.Rule("R7", "no lock->latch wait-for cycle between Stop paths and the goroutines they join")
+	c.Rule("R8", "every quit latch that guards blocking operations can be closed by a function that does not itself wait on it and is called from outside the component")
 
 	ce := newChanEngine(p)
 
@@ -248,6 +249,7 @@ func checkC09(c *Ctx) {
 
 	// ---------------- R7
 	checkWaitForCycles(c)
+	checkQuitHasExternalCloser(c, "R8")
 }
 
 func checkListener(c *Ctx, ce *chanEngine) {
@@ -798,4 +800,95 @@ func quitGuarded(ce *chanEngine, b *ssa.BasicBlock) bool {
 
 func unguardedAcquirers(p *Prog, ce *chanEngine, L *types.Var) map[*ssa.Function]bool {
 	return map[*ssa.Function]bool{}
+}
+
+// checkQuitHasExternalCloser (C09.R8): a quit latch makes a blocking select interruptible only if somebody who is not
+// itself waiting on the latch can close it. For every component whose goroutines block on its quit latch, some
+// function that closes the latch (directly or through a helper) must (1) not run the code that blocks on it - a closer
+// that only runs after the component's own loop returned cannot end that loop - and (2) be called from outside the
+// component. Otherwise, when all goroutines of the component are parked in quit-guarded selects (reader on a full
+// pipeline, writer on a reply that never comes), nothing ends them: closing the connection wakes neither, and every
+// Stop that joins the component hangs.
+func checkQuitHasExternalCloser(c *Ctx, rule string) {
+	p := c.P
+	n := 0
+	for _, q := range latchFields(p, "quit") {
+		owner := ownerOf(p, q)
+		if !strings.HasPrefix(owner, "proc") {
+			continue
+		}
+		var blockers, closers []*ssa.Function
+		for _, op := range p.chanOpsOnField(q) {
+			switch op.Kind {
+			case opRecv:
+				if op.Blocking {
+					blockers = append(blockers, op.Fn)
+				}
+			case opClose:
+				closers = append(closers, op.Fn)
+			}
+		}
+		if len(blockers) == 0 || len(closers) == 0 {
+			continue
+		}
+		n++
+		site := "quit latch of " + owner + " can be closed by a non-waiter"
+		isBlocker := map[*ssa.Function]bool{}
+		for _, f := range blockers {
+			isBlocker[f] = true
+		}
+		isCloser := map[*ssa.Function]bool{}
+		for _, f := range closers {
+			isCloser[topFn(f)] = true
+			isCloser[f] = true
+		}
+		// owner type methods
+		ownerName := owner[strings.LastIndex(owner, ".")+1:]
+		isOwnerMethod := func(f *ssa.Function) bool {
+			t := topFn(f)
+			if t.Signature.Recv() == nil {
+				return false
+			}
+			nt := namedOf(t.Signature.Recv().Type())
+			return nt != nil && nt.Obj().Name() == ownerName && nt.Obj().Pkg() == q.Pkg()
+		}
+		// candidate closing entry points: module functions that reach a closer
+		found := ""
+		for _, f := range p.SrcFns {
+			if p.isTestFn(f) || !isModFn(f) || f.Parent() != nil {
+				continue
+			}
+			reach := p.reachable([]*ssa.Function{f}, nil)
+			closes, blocks := false, false
+			for g := range reach {
+				if isCloser[g] {
+					closes = true
+				}
+				if isBlocker[g] {
+					blocks = true
+				}
+			}
+			if !closes || blocks {
+				continue
+			}
+			// called from outside the component (or an exported method reached through an interface)
+			ext := false
+			for _, ed := range p.callersOf(f) {
+				if p.isTestFn(ed.Caller.Func) {
+					continue
+				}
+				if !isOwnerMethod(ed.Caller.Func) {
+					ext = true
+				}
+			}
+			if ext {
+				found = fnKey(f)
+				break
+			}
+		}
+		c.Check(found != "", rule, site, q.Pos(), "closed by "+found+", which does not wait on it and is called from outside the component", "every function that closes this latch either runs the component's own blocking loops first or is never called from outside: once the component's goroutines are all parked in selects guarded by this latch (a reader on a full pipeline, a writer waiting for a backend that never answers) nothing can end them - closing the connection does not wake them, so the handler never returns and Stop hangs")
+	}
+	if n == 0 {
+		c.Unresolved(rule, "no component blocks on a quit latch")
+	}
 }
